@@ -42,7 +42,7 @@ RULE = (
     "trusting it) - as bit-rot or a re-serialising remote would; xfer_untrusted then runs transfer(src, dest, ids "
     "(directory objects weighted x3), shallow/expanded, hardlink or copy, verify=drawn, forced True whenever the "
     "source holds a tampered object), optionally with cache_odb= a separate harness-built store holding a "
-    "byte-identical or re-serialised copy of each requested '.dir' object. A tampered object is excused only in "
+    "byte-identical or re-serialised (same entries) copy of each requested '.dir' object. A tampered object is excused only in "
     "the store where the harness did it and only while it holds exactly the harness's bytes (gone / correctly "
     "replaced = healed); every other store - in particular the DESTINATION of a verifying transfer - must pass "
     "the full audit; from a source with an outstanding tampered object the ordinary xfer runs with verify=True "
@@ -68,8 +68,12 @@ ASSUMPTIONS = [
     "mismatching object (HashFileDB.add hashes what it filed, removes and reports a mismatch); a local store "
     "trusts a 0o444 object without re-hashing it, so the tampered source copy itself may stay and even be "
     "state-recorded there",
-    "cache_odb is only a place the library may read directory listings from; whatever it holds, the bytes filed "
-    "in the destination are judged against their name",
+    "cache_odb is only a place the library may read directory listings from; the bytes filed in the destination "
+    "are judged against their name. The caller's cache agrees with the source on what a directory id lists "
+    "(same entries, possibly other serialisation): with a disagreeing cache listing the status query classes "
+    "objects the destination already holds as new and transfer re-sends them in overwrite mode - over a "
+    "destination that is a hard link of the source file this truncates both (precondition already kept by "
+    "add_direct's overwrite arm), so such caches are not generated",
     "tampered listings stay well-formed (list of {md5, relpath} entries) - a malformed or unparsable '.dir' "
     "object in the source is outside this check",
     "files named like dvc-objects temp files (.<token>.tmp) are counted, not judged",
@@ -136,6 +140,7 @@ def _pool():
 
 
 _DIR_HOW = ["indent", "compact", "reversed", "newline", "drop-entry"]
+_SAME_LISTING = ["indent", "compact", "reversed", "newline"]  # re-serialisations that keep every entry
 _FILE_HOW = ["flip", "truncate", "append"]
 _HOW = st.fixed_dictionaries({"dir": st.sampled_from(_DIR_HOW), "file": st.sampled_from(_FILE_HOW)})
 
@@ -445,7 +450,7 @@ class C01Machine(TraceMachine):
     @rule(src=st.integers(0, 1), picks=st.lists(st.integers(0, 40), min_size=1, max_size=4),
           shallow=st.booleans(), hardlink=st.booleans(), verify=st.booleans(),
           rot=st.lists(st.fixed_dictionaries({"k": st.sampled_from([0, 0, 1, 2, 3]), "how": _HOW}), max_size=2),
-          cache=st.one_of(st.none(), st.none(), st.sampled_from(["intact", *_DIR_HOW])))
+          cache=st.one_of(st.none(), st.none(), st.sampled_from(["intact", *_SAME_LISTING])))
     @traced
     def xfer_untrusted(self, src, picks, shallow, hardlink, verify, rot, cache=None):
         """A fetch from a store that is not trusted: `rot` first tampers (see _tamper) with drawn objects among
@@ -453,8 +458,10 @@ class C01Machine(TraceMachine):
         source holds an object the harness tampered with (verify=False copies bytes as they are, so it is only
         drawn for an intact source).  With `cache` the caller also passes cache_odb=: a separate store (built by
         the harness, not audited) that holds a copy of every requested '.dir' object - byte-identical ('intact')
-        or re-serialised; the library may read listings from it, the bytes it files in the destination are
-        judged by the ordinary audit."""
+        or re-serialised with the same entries (a cache whose listing DISAGREES with the source's listing under
+        the same id is not generated: it makes the status query re-send, in overwrite mode, objects the
+        destination already holds, possibly as hard links of the very source files); the library may read
+        listings from it, the bytes it files in the destination are judged by the ordinary audit."""
         from dvc_data.hashfile.hash_info import HashInfo
         from dvc_data.hashfile.transfer import transfer
 
@@ -490,7 +497,9 @@ class C01Machine(TraceMachine):
 
     def _cache_copy(self, sodb, oids, how):
         """The caller's own cache for cache_odb=: a fresh local-class store outside the audited four, holding a
-        copy of each requested '.dir' object of the source ('intact' = same bytes, else re-serialised, 0o644)."""
+        copy of each requested '.dir' object of the source ('intact' = same bytes, else re-serialised with the
+        same entries, 0o644)."""
+        assert how == "intact" or how in _SAME_LISTING, how
         self.ncache += 1
         codb = ops.make_odb("local", os.path.join(self.dir, f"cachecopy{self.ncache}"))
         for oid in oids:
@@ -782,7 +791,7 @@ def _audit_foreign(path, algo):
 
 
 def run(ctx):
-    run_trace_machine(ctx, C01Machine, ctx.n(quick=150, thorough=1500), 12)
+    run_trace_machine(ctx, C01Machine, ctx.n(quick=175, thorough=1750), 12)
 
 
 def replay(case, ctx):
